@@ -378,11 +378,10 @@ def _arms(ctx, u, k):
     body = u.body(k); dg = u.dag(k)
     err_item, err_timeout = [], []
     for b in sorted(body.reachable):
-        ve = util.variant_edges(body, b)
+        ve = util.variant_edges_place(body, b)       # also the inner Result of a flattened `Ok(Ok(x)) / Ok(Err(e)) / Err(_)` match
         if not ve: continue
-        l, arms, other = ve
-        ty = body.locals[l]["ty"]
-        if not ty.startswith("std::result::Result<"): continue
+        pl, ty, arms, other = ve
+        if not ty or not ty.startswith("std::result::Result<"): continue
         tgt = arms.get(1, other)
         if tgt is None: continue
         (err_timeout if "Elapsed" in ty else err_item).append(tgt)
